@@ -20,7 +20,7 @@ Rec(k, f, nb) == [k |-> k, seg |-> b.act, load |-> Load(b), exec |-> Exec(b), as
 
 InMode(k) == \/ Mode = "all"
              \/ Mode = "stack" /\ k \in {"EMIT", "READPC", "SEGMENT", "PHASE", "DEPHASE", "SAVE", "RESTORE", "LABEL", "RORG", "CPU"}
-             \/ Mode = "struct" /\ k \in {"EMIT", "RESERVE", "FIELD", "STRUCT", "ENDSTRUCT", "ALIGN", "LABEL", "ORG"}
+             \/ Mode = "struct" /\ k \in {"EMIT", "RESERVE", "FIELD", "STRUCT", "ENDSTRUCT", "ALIGN", "LABEL", "ORG", "RORG"}
 Do(k, f, nb) == InMode(k) /\ Ok(nb) /\ b' = nb /\ hist' = Append(hist, Rec(k, f, nb))
 
 Ordinary == ~InStruct(b)
@@ -31,9 +31,11 @@ Next ==
      \/ ~Small /\ Ordinary /\ Do("READPC", [n |-> 1, val |-> Exec(b)], MarkUsed(Advance(b, 1)))
      \/ \E c \in (IF Small THEN {0, 3} ELSE {0, 1, 2, 7}) : Do(IF Ordinary THEN "RESERVE" ELSE "FIELD", [n |-> c, val |-> FieldValue(b)], MarkUsed(Advance(b, c)))
      \/ \E a \in (IF Small THEN {16, Load(b) + 3} ELSE {0, 16, 100, 1000, Load(b) + 3, Load(b)}) :
-           Ordinary /\ Do("ORG", [a |-> a], MarkUsed(Org(b, a)))
-     \/ \E d \in (IF Small THEN {4} ELSE {1, 4, 32}) : Ordinary /\ Do("RORG", [d |-> d], MarkUsed(Rorg(b, d)))
-     \/ \E a \in (IF Small THEN {4} ELSE {2, 4, 8, 16}) : Ordinary /\ Do("ALIGN", [a |-> a, gap |-> AlignGap(b, a)], MarkUsed(Align(b, a)))
+           \* also inside STRUCT / UNION bodies; in a STRUCT body only forwards: the code takes the length of a structure as
+           \* max(final counter, largest element offset), and what "total size" means after stepping back is left open
+           (Ordinary \/ InUnion(b) \/ a >= Load(b)) /\ Do("ORG", [a |-> a], MarkUsed(OrgStmt(b, a)))
+     \/ \E d \in (IF Small THEN {4} ELSE {1, 4, 32}) : Do("RORG", [d |-> d], MarkUsed(RorgStmt(b, d)))
+     \/ \E a \in (IF Small THEN {4} ELSE {2, 4, 8, 16}) : Do("ALIGN", [a |-> a, gap |-> AlignGap(b, a)], MarkUsed(Align(b, a)))
      \/ \E s \in Segs : Ordinary /\ s # b.act /\ Do("SEGMENT", [s |-> s], MarkUsed(Segment(b, s, 0)))
      \/ \E a \in (IF Small THEN {512, Exec(b) + 64} ELSE {0, 512, 2000, Exec(b) + 64}) : Ordinary /\ Len(b.phStk[b.act]) < 3 /\ Do("PHASE", [a |-> a], MarkUsed(Phase(b, a)))
      \/ Ordinary /\ Do("DEPHASE", <<>>, MarkUsed(Dephase(b)))
@@ -47,7 +49,7 @@ Next ==
 View == b
 \* transition cover: the behaviour up to and including this transition + where an observer statement placed
 \* right after it must land (segment, load address) and what it must read as execution address
-TCover == PrintT(<<"TR", ToJson([h |-> hist', seg |-> b'.act, load |-> Load(b'), exec |-> Exec(b'), instruct |-> InStruct(b'),
+TCover == PrintT(<<"TR", ToJson([h |-> hist', seg |-> b'.act, load |-> Load(b'), exec |-> Exec(b'), instruct |-> InStruct(b'), field |-> FieldValue(b'),
                                    saves |-> Len(b'.saveStk), structs |-> Len(b'.stStk)])>>)
 Complete == b.stStk = <<>> /\ b.saveStk = <<>>
 Dump == (Complete /\ Len(hist) >= 6 /\ (Len(hist) = MaxLen \/ Len(hist) % 5 = 0)) => PrintT(<<"BEH", ToJson(hist)>>)
